@@ -17,8 +17,9 @@ from __future__ import annotations
 
 import hashlib
 import random
+import _thread
 import sys
-import threading
+import time
 
 
 class SimCancel(BaseException):
@@ -47,7 +48,21 @@ class Scheduler:
         self.max_steps = max_steps
         self.record_locations = record_locations
 
-        self.sems = [threading.Semaphore(0) for _ in range(nthreads)]
+        # The baton: one raw lock per thread, held (locked) while the thread is parked.  Raw locks and
+        # pre-bound methods are used on purpose: `threading.Semaphore`/`Event`/`Thread` run Python
+        # code (and allocate) on both sides of a hand-over, which races for real and perturbs the
+        # allocator state -- and with it `id()`-dependent hashing -- between otherwise equal runs.
+        self._gates = [_thread.allocate_lock() for _ in range(nthreads)]
+        for g in self._gates:
+            g.acquire()
+        self._park = tuple(g.acquire for g in self._gates)
+        self._wake = tuple(g.release for g in self._gates)
+        self._fins = [_thread.allocate_lock() for _ in range(nthreads)]
+        for g in self._fins:
+            g.acquire()
+        self._fin_park = tuple(g.acquire for g in self._fins)
+        self._done = _thread.allocate_lock()
+        self._done.acquire()
         self.alive = [False] * nthreads
         self.started = [False] * nthreads
         self.cur: int | None = None
@@ -62,7 +77,7 @@ class Scheduler:
         self.op_steps = [0] * nthreads           # steps since the current op of a thread began
         self.cancel_at: list[int | None] = [None] * nthreads
         self.cancelled_fired = 0
-        self.done_evt = threading.Event()
+        self.finished = False
         self.errors: list[str] = []
         self.overrun = False
         self._code_filter: dict = {}
@@ -76,7 +91,10 @@ class Scheduler:
     def _next_budget(self) -> int:
         if self.replay:
             if self.sched_pos < len(self.schedule_in):
-                return self.schedule_in[self.sched_pos][1]
+                ent = self.schedule_in[self.sched_pos]
+                if len(ent) > 2 and ent[2] == 'x':
+                    return 1 << 60
+                return ent[1]
             return 1 << 60   # schedule exhausted: run to completion
         # geometric quantum with the configured mean
         q = self.mean_quantum
@@ -99,8 +117,10 @@ class Scheduler:
             return cands[0]
         return self.rng.choice(cands)
 
-    def _record_segment(self, i: int):
-        self.segments.append([i, self.seg_steps])
+    def _record_segment(self, i: int, exiting: bool = False):
+        # a segment that ended because the thread finished is marked: on replay it runs to the
+        # thread's end instead of handing over when the recorded length is reached
+        self.segments.append([i, self.seg_steps, 'x'] if exiting else [i, self.seg_steps])
         self.seg_steps = 0
         if self.replay:
             self.sched_pos += 1
@@ -121,7 +141,7 @@ class Scheduler:
             first = self.rng.randrange(self.n)
         self.cur = first
         self.budget = self._next_budget()
-        self.sems[first].release()
+        return first
 
     def _switch(self, i: int, frame):
         j = self._pick_next(i)
@@ -142,23 +162,24 @@ class Scheduler:
             self.log.update(f'S{i}>{j};'.encode())
         self.cur = j
         self.budget = self._next_budget()
-        self.sems[j].release()
-        self.sems[i].acquire()
+        wake, park = self._wake[j], self._park[i]
+        wake()
+        park()
 
     def _exit(self, i: int):
         """Thread i finished: hand the baton on."""
         self.alive[i] = False
         self.where[i] = 'done'
         j = self._pick_next(i)
-        self._record_segment(i)
+        self._record_segment(i, exiting=True)
         self.log.update(f'X{i};'.encode())
         if j is None:
             self.cur = None
-            self.done_evt.set()
+            self.finished = True
             return
         self.cur = j
         self.budget = self._next_budget()
-        self.sems[j].release()
+        self._wake[j]()
 
     # -- tracing ------------------------------------------------------------
 
@@ -235,13 +256,20 @@ class Scheduler:
         `bodies[i](sched, i)` is the work of simulated thread i; it runs with
         tracing enabled and only while it holds the baton.
         """
-        threads = []
+        ready = [_thread.allocate_lock() for _ in range(self.n)]
+        for g in ready:
+            g.acquire()
+        ready_rel = tuple(g.release for g in ready)
+        ready_acq = tuple(g.acquire for g in ready)
+        self._tracers = [None] * self.n
+        for i in range(self.n):
+            self._tracers[i] = self.make_tracer(i)
 
         def main(i):
-            self.sems[i].acquire()
-            tracer = self.make_tracer(i)
-            self._tracers[i] = tracer
-            sys.settrace(tracer)
+            # raw thread: no Python-level bootstrap races with the parent
+            ready_rel[i]()
+            self._park[i]()
+            sys.settrace(self._tracers[i])
             try:
                 bodies[i](self, i)
             except StepLimit:
@@ -252,18 +280,29 @@ class Scheduler:
             finally:
                 sys.settrace(None)
                 self._exit(i)
+            if self.finished:
+                # last one out: nothing else is running; release everybody, then the caller
+                for k in range(self.n):
+                    if k != i:
+                        self._fins[k].release()
+                self._done.release()
+            else:
+                # stay parked until the run is over, so thread teardown never overlaps a running thread
+                self._fin_park[i]()
 
-        self._tracers = [None] * self.n
         for i in range(self.n):
-            t = threading.Thread(target=main, args=(i,), name=f'sim-{i}', daemon=True)
-            threads.append(t)
-            t.start()
-        self.start()
-        ok = self.done_evt.wait(timeout)
+            _thread.start_new_thread(main, (i,))
+            # one at a time: the parent is blocked (in C) while thread i starts up and parks
+            ready_acq[i]()
+        first = self.start()
+        wake = self._wake[first]
+        acquire_done = self._done.acquire
+        wake()
+        ok = acquire_done(True, timeout)
         if not ok:
             self.errors.append('scheduler wall-clock timeout (deadlock in the harness?)')
-        for t in threads:
-            t.join(1.0 if ok else 0.1)
+        else:
+            time.sleep(0.01)   # let the raw threads unwind
         return ok
 
     def rearm(self, i: int):
